@@ -248,6 +248,8 @@ def layering(ctx, F):
                 ops.append((b, "call", cp, macs))
     ctx.instance(r, len(ops))
     bad = []
+    raw_ok = {}
+    envs_ = layout.variant_envs(F)
     for op in ops:
         b = op[0]
         p = b.path
@@ -271,6 +273,12 @@ def layering(ctx, F):
                 bad.append("%s calls from_utf8_unchecked" % p)
         elif p.startswith("generate::_::") or p.startswith("<generate::_::"):
             continue  # bitflags-generated plumbing
+        elif cp.startswith(("core::ptr::const_ptr::<impl *const T>::add", "core::ptr::mut_ptr::<impl *mut T>::add", "core::ptr::copy_nonoverlapping", "core::intrinsics::copy_nonoverlapping")):
+            # raw element copies outside the backends are accepted only when both windows are proven inside their slices
+            if b.path not in raw_ok:
+                raw_ok[b.path] = raw_copies_in_bounds(F, b, envs_)
+            if raw_ok[b.path] is not None:
+                bad.append("%s: %s" % (p, raw_ok[b.path]))
         else:
             bad.append("%s performs an unsafe call to %s" % (p, cp))
     ctx.ob(r, ("unsafe-operations", "layering"), not bad, "; ".join(sorted(set(bad))[:3]), cfg=F.key, detail={"unsafe_operations": len(ops)})
@@ -278,6 +286,50 @@ def layering(ctx, F):
         ctx.ob(r, ("safe-configuration", "no-unsafe-operation"), not ops, "the forbid(unsafe_code) configuration contains %d unsafe operations" % len(ops), cfg=F.key)
     else:
         ctx.floor(r, 20, "unsafe operations inventoried")
+
+
+def raw_copies_in_bounds(F, b, envs):
+    """None if every ptr::copy_nonoverlapping(src, dst, n) in b reads n elements inside the slice src points into and writes n
+    elements inside the slice dst points into (u8 elements), and every pointer add feeds only such a copy; else a description."""
+    S = sym.Sym(b)
+    try:
+        paths = S.paths()
+    except sym.PathLimit:
+        return "too many paths"
+    SLEN = "core::slice::<impl [T]>::len"
+
+    def ptr(e):
+        off = C(0)
+        while True:
+            if e[0] == "cast":
+                e = e[3]
+            elif e[0] == "call" and len(e[2]) == 2 and e[1].endswith(("::add",)):
+                off = layout.add(off, e[2][1])
+                e = e[2][0]
+            elif e[0] == "call" and len(e[2]) == 1 and e[1].endswith(("::as_ptr", "::as_mut_ptr")):
+                return e[2][0], off
+            else:
+                return None, None
+
+    n_copies = 0
+    for p in paths:
+        for (bb, cp, args, c) in p.calls:
+            if not cp.endswith("copy_nonoverlapping"):
+                continue
+            n_copies += 1
+            a = [panics.pn(S, x) for x in args]
+            (sb, so), (db, do) = ptr(a[0]), ptr(a[1])
+            if sb is None or db is None:
+                return "raw copy with an unrecognised pointer: %s" % sym.fmt(n(args[0]))[:80]
+            for base, off, what in ((sb, so, "source"), (db, do, "destination")):
+                ln = panics.symlen(F, b, base, (envs or [(None, None)])[0][1])
+                if ln is None:
+                    ln = ("call", SLEN, (base,))
+                if not panics.prove_le(F, S, b, p, bb, ("bin", "Add", off, a[2]), ln, envs):
+                    return "raw copy of %s elements at %s offset %s is not proven inside its slice" % (sym.fmt(a[2]), what, sym.fmt(off))
+    if n_copies == 0:
+        return "pointer arithmetic without a recognised copy"
+    return None
 
 
 def load_bases(ctx, r, F):
